@@ -214,6 +214,9 @@ class Harness:
             return
         got = observable_state(tree, self.n)
         exp = self.fresh_state(idx)
+        # total_branch_length is a floating-point sum taken in child order, which is allowed to depend on the path
+        if got != exp and abs(got["tbl"] - exp["tbl"]) <= 1e-9 * max(1.0, abs(exp["tbl"])):
+            got = dict(got, tbl=exp["tbl"])
         if got != exp:
             diff = [k for k in exp if got[k] != exp[k]]
             self.fail("nav/state-differs/" + "+".join(diff),
@@ -275,7 +278,11 @@ def run_case(case, ctx):
         m = gen.gen_full(rng, max_nodes=6, max_bp=2, max_sites=3)
         opts = pick_opts(rng, m)
     else:
-        m = gen.gen_full(rng, max_nodes=10, max_bp=6, max_sites=5)
+        if case["k"] % 25 == 24:
+            from lib.props.c01 import build_msprime
+            m = build_msprime(rng)  # many trees, arbitrary doubles, ARG nodes
+        else:
+            m = gen.gen_full(rng, max_nodes=10, max_bp=6, max_sites=5)
         opts = pick_opts(rng, m)
     ts = to_ts(m)
     for t in gen.topo_tags(m):
